@@ -317,7 +317,29 @@ def part_order(ctx, shard):
     prefixable symbol and every ordered pair of prefix symbols, a fresh registry resolves p1+S and then p2+S"""
     from unyt.unit_registry import UnitRegistry
 
+    from unyt import dimensions as _ud
+
     for S in shard:
+        # user symbols that END in "cm" (comoving units, yt's pccm) get special treatment in the prefix lookup: resolving
+        # p+S+"cm" must not change what p+S resolves to
+        row = default_unit_symbol_lut[S]
+        if S != "cm" and not float(row[2]):
+            for p in PREFIX_SYMS:
+                ctx.count("evaluations")
+                reg = UnitRegistry()
+                reg.add(S + "cm", float(row[0]) / 3.0, row[1], prefixable=True)
+                first = real(p + S + "cm", reg)
+                got = real(p + S, reg)
+                exp2, _ = expected_units(p + S)
+                if len(exp2) != 1:
+                    continue
+                ctx.decided(("order-comoving", S, p))
+                exp = unit_of_reading(*exp2[0])
+                if got[0] != "ok" or not same_unit(got, exp):
+                    ctx.violation(f"C14|order|first={p}+S+cm|second={p}+S|mode=resolution-depends-on-earlier-lookup", {"part": "order", "symbol": S, "first": p + S + "cm", "second": p + S}, exp[:1], got[:2])
+                want_first = float(row[0]) / 3.0 * PREFIX_SYMS[p]
+                if first[0] != "ok" or abs(first[1] - want_first) > 1e-12 * abs(want_first):
+                    ctx.violation(f"C14|order|name={p}+S+cm|mode=prefixed-comoving-symbol-wrong", {"part": "order", "symbol": S, "first": p + S + "cm"}, want_first, first[:2])
         for p1, p2 in itertools.permutations(list(PREFIX_SYMS), 2):
             s1, s2 = p1 + S, p2 + S
             exp2, _ = expected_units(s2)
